@@ -39,7 +39,7 @@ def gen_case(streams, tier):
     classes = g.choice([['bit', 'small'], ['small'], ['bit', 'small'], ['small', 'mid']])
     cfg = gen.make_cfg(nets=(2, 10), classes=classes, max_mul_width=6, mem_wide_aw=0.0,
                        mem_aw=(1, 4), rom_aw_max=3, regs=(0, 3), mems=(0, 2), roms=(0, 1),
-                       max_concat=24, class_pool=['bit', 'small'])
+                       max_concat=24, class_pool=['bit', 'small'], write_only_mem_prob=0.2)
     if 'mid' in classes:
         cfg['ops'] = 'w~&|^n+-<>=xcs'     # no multiplier at 9..24 bits: O(n^2) nets
     script = gen.gen_script(g, cfg)
